@@ -89,8 +89,8 @@ claim("C09",
       "Outside: 'partial result is a prefix of the full value' (builders) and CTE. Raw documents containing the padding code are excluded (a cut before trailing padding leaves a complete document).",
       "DESIGN.md §5 C09")
 claim("C04",
-      "(a) Typed round trip through the real iterator Session, rules validator and builder Session (and, for the cases with few integers, the real CBE encoder and decoder in between): 22 Go types (struct of all integer widths, bool, string; floats; []byte, [2]byte, slices/arrays of uint16/int32/uint64/float32, []string, []int, []uint, []bool, maps, pointers nil/non-nil, *[]string, nested and embedded structs, interface{} fields, []struct, top-level int64/string) with symbolic contents; z3 shows marshal and unmarshal succeed and every field/element/entry of the result equals the original. (b) Chunked-array reassembly in the real BuilderEventReceiver/Context with symbolic content and every chunking. (c) Integer arrival: every int64/uint64 value as the events a decoder produces into a destination of its own type is accepted and stored exactly.",
-      "reflect, sync.Map and WaitGroup are the engine's emulation / sequential model (DESIGN.md §2); equality is checked field by field by the harness. Big numbers, times, URLs, media, custom types are not in this check; recursion support is C20. Open findings: []int/[]uint and []bool cannot be unmarshaled (KF-C04-int-uint-slices, KF-C04-bool-slices).",
+      "(a) Typed round trip through the real iterator Session, rules validator and builder Session (and, for the cases with few integers, the real CBE encoder and decoder in between): 24 Go types (struct of all integer widths, bool, string; floats; []byte, [2]byte, slices/arrays of uint16/int32/uint64/float32, []string, []int, []uint, []bool, maps, pointers nil/non-nil, *[]string, nested and embedded structs, interface{} fields, []struct, structs with types.Media values, adjacent byte slices, top-level int64/string) with symbolic contents; z3 shows marshal and unmarshal succeed and every field/element/entry of the result equals the original. (b) Chunked-array reassembly in the real BuilderEventReceiver/Context with symbolic content and every chunking. (c) Integer arrival: every int64/uint64 value as the events a decoder produces into a destination of its own type is accepted and stored exactly.",
+      "reflect, sync.Map and WaitGroup are the engine's emulation / sequential model (DESIGN.md §2); equality is checked field by field by the harness. Big numbers, times, URLs, custom types are not in this check; recursion support is C20. Open findings: []int/[]uint and []bool cannot be unmarshaled (KF-C04-int-uint-slices, KF-C04-bool-slices).",
       "DESIGN.md §5 C04")
 claim("C05",
       "Leaf iterators (bool slices, eight numeric slice kinds, Edge, Node) and the struct / record iterators built by the real extractFields/newStructIterator/newRecordIterators (6 struct shapes, embedded structs nested 1..5 deep) run on an emulated reflect.Value with symbolic contents; the emitted events go through the real rules validator and a recorder; z3 shows acceptance and that typed arrays carry exactly the elements and every field appears once, in order, under its name, with its own contents.",
